@@ -152,7 +152,8 @@ Definition check_schema (fa fb : bool) (c : scase) : verdict :=
                (Bool.eqb (accepts schema_tbl (s_probe c)) (s_schema c) &&
                 Bool.eqb (accepts loader_tbl (s_probe c)) (s_loader c));
      v_prop := Bool.eqb (s_schema c) (s_loader c);
-     v_guards := guards [(1%Z, probe_guard fa fb (s_probe c))] |}.
+     v_guards := guards [(1%Z, probe_guard fa fb (s_probe c));
+                         (6%Z, probe_guard_F6 schema_tbl loader_tbl (s_probe c))] |}.
 
 Definition sc k t cf o mi c s l :=
   {| s_probe := {| p_kind := k; p_type := t; p_config := cf; p_opts := o; p_missing := mi |};
